@@ -18,24 +18,41 @@ Proof.
   destruct (N.eqb i i' && Nat.eqb g g'); cbn; intuition.
 Qed.
 
+Lemma OwnInv_reg f lim d s c s' : OwnInv s -> reg_step f lim d s c = Some s' -> OwnInv s'.
+Proof.
+  intros [Hb Hc] Hs. unfold reg_step in Hs.
+  destruct (aget c (r_calls s)) eqn:Hcall; [discriminate|].
+  destruct (aget c (clean f lim d (r_pending s))) as [e|]; injection Hs as <-; split; cbn; auto;
+    intros c' p; rewrite aget_aset; destruct (N.eqb c' c); try discriminate; auto.
+Qed.
+Lemma OwnInv_recv f lim d s c s' : OwnInv s -> recv_step f lim d s c = Some s' -> OwnInv s'.
+Proof.
+  intros [Hb Hc] Hs. unfold recv_step in Hs.
+  destruct (aget c (r_calls s)) as [[g|r]|] eqn:Hcall; try discriminate.
+  destruct f; [|injection Hs as <-; split; auto].
+  destruct (aget c (clean true lim d (r_pending s))) as [e|]; injection Hs as <-; split; cbn; auto;
+    intros c' p; rewrite aget_aset; destruct (N.eqb c' c); try discriminate; auto.
+Qed.
+
 Lemma OwnInv_step f lim d s l s' : OwnInv s -> rstep f lim d s l = Some s' -> OwnInv s'.
 Proof.
-  intros [Hb Hc] Hs. destruct l as [c|i p|c|c]; cbn in Hs.
-  - destruct (aget c (r_calls s)) eqn:Hcall; [discriminate|].
-    destruct (aget c (clean f lim d (r_pending s))) as [e|]; injection Hs as <-; split; cbn; auto;
-      intros c' p; rewrite aget_aset; destruct (N.eqb c' c); try discriminate; auto.
-  - destruct (aget i (clean f lim d (r_pending s))) as [e|];
+  intros Hinv Hs. destruct l as [c|c|c|i p|c|c]; cbn [rstep] in Hs.
+  - destruct (reg_step f lim d s c) as [s1|] eqn:H1; [|discriminate].
+    eapply OwnInv_recv; [eapply OwnInv_reg; eauto|eauto].
+  - eapply OwnInv_reg; eauto.
+  - eapply OwnInv_recv; eauto.
+  - destruct Hinv as [Hb Hc]. cbn in Hs. destruct (aget i (clean f lim d (r_pending s))) as [e|];
       (destruct (buf_get i _ (r_bufs s)); [discriminate|]); injection Hs as <-; split; cbn.
     + intros i' g p' [[= <- <- <-]|Hin]; [now left|right; eauto].
     + intros c p' H. right. auto.
     + intros i' g p' [[= <- <- <-]|Hin]; [now left|right; eauto].
     + intros c p' H. right. auto.
-  - destruct (aget c (r_calls s)) as [[g|r]|] eqn:Hcall; try discriminate.
+  - destruct Hinv as [Hb Hc]. cbn in Hs. destruct (aget c (r_calls s)) as [[g|r]|] eqn:Hcall; try discriminate.
     destruct (buf_get c g (r_bufs s)) as [p|] eqn:Hg; [|discriminate]. injection Hs as <-. split; cbn.
     + intros i g' p' Hin. apply buf_del_sub in Hin. eauto.
     + intros c' p'. rewrite aget_aset. destruct (N.eqb_spec c' c) as [->|]; auto.
       intros [= <-]. apply buf_get_in in Hg. eauto.
-  - destruct (aget c (r_calls s)) as [[g|r]|] eqn:Hcall; try discriminate. injection Hs as <-. split; cbn; auto.
+  - destruct Hinv as [Hb Hc]. cbn in Hs. destruct (aget c (r_calls s)) as [[g|r]|] eqn:Hcall; try discriminate. injection Hs as <-. split; cbn; auto.
     intros c' p'. rewrite aget_aset. destruct (N.eqb c' c); [discriminate|auto].
 Qed.
 
@@ -131,54 +148,76 @@ Qed.
 Lemma clean_nodup f lim d m : NoDup (akeys m) -> NoDup (akeys (clean f lim d m)).
 Proof. intros H. unfold clean. destruct (_ && _ && _); auto. now apply discard_nodup. Qed.
 
+Lemma WaitInv_keep lim d s : WaitInv s -> forall c g, aget c (r_calls s) = Some (PWaiting g) ->
+  exists a, aget c (clean true lim d (r_pending s)) = Some {| pe_gen := g; pe_waiting := true; pe_age := a |}.
+Proof.
+  intros [Hnd Hw] c g Hc. destruct (Hw c g Hc) as [a Ha]. exists a.
+  now apply (clean_keeps_waiting lim d (r_pending s) c _ Hnd Ha).
+Qed.
+
+(* setting the entry of [c] to a waiting one with generation [g] over the cleaned table *)
+Lemma WaitInv_set lim d s c ent bufs gen age dl :
+  WaitInv s -> pe_waiting ent = true ->
+  WaitInv {| r_pending := aset c ent (clean true lim d (r_pending s)); r_bufs := bufs; r_gen := gen; r_age := age;
+             r_calls := aset c (PWaiting (pe_gen ent)) (r_calls s); r_delivered := dl |}.
+Proof.
+  intros Hinv Hent. pose proof (WaitInv_keep lim d s Hinv) as Hkeep. destruct Hinv as [Hnd Hw].
+  split; cbn.
+  - apply akeys_aset_nodup, clean_nodup; assumption.
+  - intros c' g. rewrite !aget_aset. destruct (N.eqb_spec c' c) as [->|Hne].
+    + intros [= <-]. exists (pe_age ent). destruct ent; cbn in *; subst; reflexivity.
+    + intros Hc'. exact (Hkeep c' g Hc').
+Qed.
+
+Lemma WaitInv_reg lim d s c s' : WaitInv s -> reg_step true lim d s c = Some s' -> WaitInv s'.
+Proof.
+  intros Hinv Hs. unfold reg_step in Hs.
+  destruct (aget c (r_calls s)) eqn:Hcall; [discriminate|].
+  destruct (aget c (clean true lim d (r_pending s))) as [e|] eqn:He; injection Hs as <-.
+  - apply (WaitInv_set lim d s c {| pe_gen := pe_gen e; pe_waiting := true; pe_age := pe_age e |}); auto.
+  - apply (WaitInv_set lim d s c {| pe_gen := r_gen s; pe_waiting := true; pe_age := r_age s |}); auto.
+Qed.
+Lemma WaitInv_recv lim d s c s' : WaitInv s -> recv_step true lim d s c = Some s' -> WaitInv s'.
+Proof.
+  intros Hinv Hs. unfold recv_step in Hs.
+  destruct (aget c (r_calls s)) as [[g|r]|] eqn:Hcall; try discriminate.
+  destruct (aget c (clean true lim d (r_pending s))) as [e|] eqn:He; injection Hs as <-.
+  - apply (WaitInv_set lim d s c {| pe_gen := pe_gen e; pe_waiting := true; pe_age := pe_age e |}); auto.
+  - apply (WaitInv_set lim d s c {| pe_gen := r_gen s; pe_waiting := true; pe_age := r_age s |}); auto.
+Qed.
+
+(* under the invariant, receive() finds the very channel the call registered: the reply that
+   arrived between the registration and receive() is the one the call takes *)
+Lemma recv_same_channel lim d s c g s' :
+  WaitInv s -> aget c (r_calls s) = Some (PWaiting g) -> recv_step true lim d s c = Some s' ->
+  aget c (r_calls s') = Some (PWaiting g) /\ r_bufs s' = r_bufs s.
+Proof.
+  intros Hinv Hc Hs. unfold recv_step in Hs. rewrite Hc in Hs.
+  destruct (WaitInv_keep lim d s Hinv c g Hc) as [a Ha]. rewrite Ha in Hs. injection Hs as <-. cbn.
+  split; [apply aget_aset_same|reflexivity].
+Qed.
+
 Lemma WaitInv_step lim d s l s' : WaitInv s -> rstep true lim d s l = Some s' -> WaitInv s'.
 Proof.
-  intros [Hnd Hw] Hs.
-  assert (Hkeep : forall c g, aget c (r_calls s) = Some (PWaiting g) ->
-            exists a, aget c (clean true lim d (r_pending s)) = Some {| pe_gen := g; pe_waiting := true; pe_age := a |}).
-  { intros c g Hc. destruct (Hw c g Hc) as [a Ha]. exists a.
-    now apply (clean_keeps_waiting lim d (r_pending s) c _ Hnd Ha). }
-  destruct l as [c|i p|c|c]; cbn in Hs.
-  - destruct (aget c (r_calls s)) eqn:Hcall; [discriminate|].
-    assert (Hgen : forall ent, pe_waiting ent = true ->
-              WaitInv {| r_pending := clean true lim d (aset c ent (clean true lim d (r_pending s)));
-                         r_bufs := r_bufs s; r_gen := r_gen s; r_age := r_age s;
-                         r_calls := aset c (PWaiting (pe_gen ent)) (r_calls s); r_delivered := r_delivered s |} /\
-              forall g' a', WaitInv {| r_pending := clean true lim d (aset c ent (clean true lim d (r_pending s)));
-                         r_bufs := r_bufs s; r_gen := g'; r_age := a';
-                         r_calls := aset c (PWaiting (pe_gen ent)) (r_calls s); r_delivered := r_delivered s |}).
-    { intros ent Hent.
-      assert (Hnd1 : NoDup (akeys (aset c ent (clean true lim d (r_pending s)))))
-        by (apply akeys_aset_nodup, clean_nodup; assumption).
-      assert (Hcore : NoDup (akeys (clean true lim d (aset c ent (clean true lim d (r_pending s))))) /\
-              forall c' g, aget c' (aset c (PWaiting (pe_gen ent)) (r_calls s)) = Some (PWaiting g) ->
-                exists a, aget c' (clean true lim d (aset c ent (clean true lim d (r_pending s)))) =
-                          Some {| pe_gen := g; pe_waiting := true; pe_age := a |}).
-      { split; [now apply clean_nodup|]. intros c' g. rewrite aget_aset.
-        destruct (N.eqb_spec c' c) as [->|Hne].
-        - intros [= <-]. exists (pe_age ent).
-          destruct (clean_keeps_waiting lim d (aset c ent (clean true lim d (r_pending s))) c ent Hnd1) as [_ Hk];
-            [apply aget_aset_same|assumption|]. rewrite Hk. destruct ent; cbn in *; subst; reflexivity.
-        - intros Hc'. destruct (Hkeep c' g Hc') as [a Ha]. exists a.
-          destruct (clean_keeps_waiting lim d (aset c ent (clean true lim d (r_pending s))) c' {| pe_gen := g; pe_waiting := true; pe_age := a |} Hnd1) as [_ Hk];
-            [rewrite aget_aset_other by congruence; exact Ha|reflexivity|]. exact Hk. }
-      split; [exact Hcore|intros; exact Hcore]. }
-    destruct (aget c (clean true lim d (r_pending s))) as [e|] eqn:He; injection Hs as <-.
-    + apply (proj1 (Hgen {| pe_gen := pe_gen e; pe_waiting := true; pe_age := pe_age e |} eq_refl)).
-    + apply (proj2 (Hgen {| pe_gen := r_gen s; pe_waiting := true; pe_age := r_age s |} eq_refl)).
-  - destruct (aget i (clean true lim d (r_pending s))) as [e|] eqn:He;
+  intros Hinv Hs. pose proof (WaitInv_keep lim d s Hinv) as Hkeep.
+  destruct l as [c|c|c|i p|c|c]; cbn [rstep] in Hs.
+  - destruct (reg_step true lim d s c) as [s1|] eqn:H1; [|discriminate].
+    eapply WaitInv_recv; [eapply WaitInv_reg; eauto|eauto].
+  - eapply WaitInv_reg; eauto.
+  - eapply WaitInv_recv; eauto.
+  - destruct Hinv as [Hnd Hw]. cbn in Hs. destruct (aget i (clean true lim d (r_pending s))) as [e|] eqn:He;
       (destruct (buf_get i _ (r_bufs s)); [discriminate|]); injection Hs as <-; split; cbn.
     + now apply clean_nodup.
     + apply Hkeep.
     + apply akeys_aset_nodup. now apply clean_nodup.
     + intros c g Hc. destruct (Hkeep c g Hc) as [a Ha]. exists a. rewrite aget_aset.
       destruct (N.eqb_spec c i) as [->|]; [congruence|exact Ha].
-  - destruct (aget c (r_calls s)) as [[g|r]|] eqn:Hcall; try discriminate.
+  - destruct Hinv as [Hnd Hw]. cbn in Hs. destruct (aget c (r_calls s)) as [[g|r]|] eqn:Hcall; try discriminate.
     destruct (buf_get c g (r_bufs s)) as [p|]; [|discriminate]. injection Hs as <-. split; cbn.
     + now apply akeys_adel_nodup.
     + intros c' g'. rewrite aget_aset. destruct (N.eqb_spec c' c) as [->|Hne]; [discriminate|].
       intros Hc. rewrite aget_adel_other by congruence. now apply Hw.
-  - destruct (aget c (r_calls s)) as [[g|r]|] eqn:Hcall; try discriminate. injection Hs as <-. split; cbn.
+  - destruct Hinv as [Hnd Hw]. cbn in Hs. destruct (aget c (r_calls s)) as [[g|r]|] eqn:Hcall; try discriminate. injection Hs as <-. split; cbn.
     + now apply akeys_adel_nodup.
     + intros c' g'. rewrite aget_aset. destruct (N.eqb_spec c' c) as [->|Hne]; [discriminate|].
       intros Hc. rewrite aget_adel_other by congruence. now apply Hw.
@@ -212,6 +251,108 @@ Proof.
   rewrite N.eqb_refl, Nat.eqb_refl. cbn [andb]. split; [reflexivity|]. cbn. apply aget_aset_same.
 Qed.
 
+(* ------------------------------------------------------------------ a buffered reply stays *)
+Lemma buf_get_del_other c g c' g' b : c <> c' -> buf_get c g (buf_del c' g' b) = buf_get c g b.
+Proof.
+  intros Hne. induction b as [|[[i j] q] r IH]; cbn; auto.
+  destruct (N.eqb_spec c' i) as [->|Hci]; destruct (Nat.eqb_spec g' j) as [->|Hgj]; cbn.
+  - destruct (N.eqb_spec c i); [congruence|]. reflexivity.
+  - rewrite IH. reflexivity.
+  - rewrite IH. reflexivity.
+  - rewrite IH. reflexivity.
+Qed.
+
+Lemma reg_other lim d s c' s' c ph : aget c (r_calls s) = Some ph -> reg_step true lim d s c' = Some s' ->
+  aget c (r_calls s') = Some ph /\ r_bufs s' = r_bufs s.
+Proof.
+  intros Hc Hs. unfold reg_step in Hs. destruct (aget c' (r_calls s)) eqn:Hc'; [discriminate|].
+  assert (c <> c') by congruence.
+  destruct (aget c' (clean true lim d (r_pending s))); injection Hs as <-; cbn;
+    (split; [rewrite aget_aset_other by congruence; exact Hc|reflexivity]).
+Qed.
+Lemma recv_keeps lim d s c' s' c g : WaitInv s -> aget c (r_calls s) = Some (PWaiting g) ->
+  recv_step true lim d s c' = Some s' -> aget c (r_calls s') = Some (PWaiting g) /\ r_bufs s' = r_bufs s.
+Proof.
+  intros Hinv Hc Hs. destruct (N.eq_dec c' c) as [->|Hne]; [eapply recv_same_channel; eauto|].
+  unfold recv_step in Hs. destruct (aget c' (r_calls s)) as [[g'|r]|]; try discriminate.
+  destruct (aget c' (clean true lim d (r_pending s))); injection Hs as <-; cbn;
+    (split; [rewrite aget_aset_other by congruence; exact Hc|reflexivity]).
+Qed.
+
+(* once the reply of a registered call sits in its channel, nothing but the call itself (taking
+   it, or being cancelled) changes that: not other calls registering or receiving, not replies
+   and orphans for other ids, not the discard rule at any pending limit *)
+Lemma buffered_stable lim d s l s' c g p :
+  WaitInv s -> aget c (r_calls s) = Some (PWaiting g) -> buf_get c g (r_bufs s) = Some p ->
+  rstep true lim d s l = Some s' -> l <> LWake c -> l <> LCancel c ->
+  aget c (r_calls s') = Some (PWaiting g) /\ buf_get c g (r_bufs s') = Some p.
+Proof.
+  intros Hinv Hc Hb Hs Hnw Hnc. destruct l as [c'|c'|c'|i q|c'|c']; cbn [rstep] in Hs.
+  - destruct (reg_step true lim d s c') as [s1|] eqn:H1; [|discriminate].
+    destruct (reg_other lim d s c' s1 c _ Hc H1) as [Hc1 Hb1].
+    destruct (recv_keeps lim d s1 c' s' c g (WaitInv_reg _ _ _ _ _ Hinv H1) Hc1 Hs) as [Hc2 Hb2].
+    split; [exact Hc2|]. now rewrite Hb2, Hb1.
+  - destruct (reg_other lim d s c' s' c _ Hc Hs) as [Hc1 Hb1]. split; [exact Hc1|now rewrite Hb1].
+  - destruct (recv_keeps lim d s c' s' c g Hinv Hc Hs) as [Hc1 Hb1]. split; [exact Hc1|now rewrite Hb1].
+  - destruct (WaitInv_keep lim d s Hinv c g Hc) as [a Ha]. cbn in Hs.
+    destruct (N.eq_dec i c) as [->|Hne].
+    + rewrite Ha in Hs. cbn [pe_gen] in Hs. rewrite Hb in Hs. discriminate.
+    + destruct (aget i (clean true lim d (r_pending s))) as [e|];
+        (destruct (buf_get i _ (r_bufs s)); [discriminate|]); injection Hs as <-; cbn;
+        (split; [exact Hc|]); destruct (N.eqb_spec c i); try congruence; cbn; exact Hb.
+  - assert (c' <> c) by congruence. cbn in Hs.
+    destruct (aget c' (r_calls s)) as [[g'|r]|]; try discriminate.
+    destruct (buf_get c' g' (r_bufs s)); [|discriminate]. injection Hs as <-. cbn. split.
+    + rewrite aget_aset_other by congruence. exact Hc.
+    + rewrite buf_get_del_other by congruence. exact Hb.
+  - assert (c' <> c) by congruence. cbn in Hs.
+    destruct (aget c' (r_calls s)) as [[g'|r]|]; try discriminate. injection Hs as <-. cbn. split.
+    + rewrite aget_aset_other by congruence. exact Hc.
+    + exact Hb.
+Qed.
+
+Definition not_own (c : N) (l : lab) : Prop := l <> LWake c /\ l <> LCancel c.
+
+Lemma buffered_run lim d c g p t : forall s,
+  WaitInv s -> aget c (r_calls s) = Some (PWaiting g) -> buf_get c g (r_bufs s) = Some p ->
+  Forall (not_own c) t ->
+  let s' := rrun true lim d s t in
+  WaitInv s' /\ aget c (r_calls s') = Some (PWaiting g) /\ buf_get c g (r_bufs s') = Some p.
+Proof.
+  induction t as [|l r IH]; intros s Hinv Hc Hb Hall; cbn; auto.
+  inversion Hall as [|? ? [Hnw Hnc] Hrest]; subst.
+  destruct (rstep true lim d s l) as [s1|] eqn:Hs; [|apply IH; auto].
+  destruct (buffered_stable lim d s l s1 c g p Hinv Hc Hb Hs Hnw Hnc) as [Hc1 Hb1].
+  apply IH; auto. eapply WaitInv_step; eauto.
+Qed.
+
+(* a reply that overtakes its caller is not lost: the call has registered (LRegister) but not yet
+   reached receive(); its reply is routed; then anything else happens — other callers register
+   and receive (more in flight than the pending limit), late replies of cancelled calls and
+   orphans arrive and run the discard rule, the call's own LReceive — and the call still takes
+   exactly that reply *)
+Theorem early_reply_delivered lim d t c g p t2 :
+  let s := rrun true lim d rst0 t in
+  aget c (r_calls s) = Some (PWaiting g) -> buf_get c g (r_bufs s) = None ->
+  Forall (not_own c) t2 ->
+  exists s1 s3, rstep true lim d s (LDeliver c p) = Some s1 /\
+    rstep true lim d (rrun true lim d s1 t2) (LWake c) = Some s3 /\
+    aget c (r_calls s3) = Some (PDone (CPayload p)).
+Proof.
+  intros s Hc Hb Hall. pose proof (WaitInv_run lim d t rst0 WaitInv_0) as Hinv. fold s in Hinv.
+  destruct (WaitInv_keep lim d s Hinv c g Hc) as [a Ha].
+  assert (Hd : rstep true lim d s (LDeliver c p) = Some
+          {| r_pending := clean true lim d (r_pending s); r_bufs := (c, g, p) :: r_bufs s; r_gen := r_gen s;
+             r_age := r_age s; r_calls := r_calls s; r_delivered := (c, p) :: r_delivered s |}).
+  { cbn [rstep]. rewrite Ha. cbn [pe_gen]. rewrite Hb. reflexivity. }
+  set (s1 := {| r_pending := clean true lim d (r_pending s); r_bufs := (c, g, p) :: r_bufs s; r_gen := r_gen s;
+             r_age := r_age s; r_calls := r_calls s; r_delivered := (c, p) :: r_delivered s |}) in *.
+  assert (Hinv1 : WaitInv s1) by (eapply WaitInv_step; eauto).
+  assert (Hb1 : buf_get c g (r_bufs s1) = Some p) by (cbn; now rewrite N.eqb_refl, Nat.eqb_refl).
+  destruct (buffered_run lim d c g p t2 s1 Hinv1 Hc Hb1 Hall) as [_ [Hc2 Hb2]].
+  exists s1. eexists. split; [exact Hd|]. cbn [rstep]. rewrite Hc2, Hb2. split; [reflexivity|]. cbn. apply aget_aset_same.
+Qed.
+
 (* the pinned rule discards the channel of a waiting call: its reply goes to a fresh channel that
    nobody reads (limit 2, discard 1, three concurrent calls) *)
 Definition discard_trace : list lab := [LStartWait 1; LStartWait 2; LStartWait 3; LDeliver 1 77]%N.
@@ -235,3 +376,12 @@ Proof.
     (destruct (buf_get c _ (r_bufs s)); [discriminate|]); injection Hs as <-; cbn; split; auto;
     intros c'; destruct (N.eqb_spec c' c) as [->|]; auto; left; cbn; now rewrite Hc.
 Qed.
+
+(* non-vacuity: limit 2, discard 1; call 1 registers, its reply overtakes it, two more calls
+   register and two orphans arrive (the table is over the limit, the discard rule runs), then
+   call 1 reaches receive() and takes reply 77 *)
+Example early_reply_example :
+  let t := [LRegister 1; LDeliver 1 77; LRegister 2; LRegister 3; LDeliver 8 5; LDeliver 9 6; LReceive 1; LWake 1]%N in
+  aget 1%N (r_calls (rrun true 2 1 rst0 t)) = Some (PDone (CPayload 77%N)) /\
+  Forall (not_own 1%N) [LRegister 2; LRegister 3; LDeliver 8 5; LDeliver 9 6; LReceive 1]%N.
+Proof. split; [vm_compute; reflexivity|]. repeat constructor; discriminate. Qed.
